@@ -109,7 +109,11 @@ EnumViol(ev) ==
 \* ev.ref / ev.cur: [rc, in, out] of Load + raw Save of one file by each build; ev.writer says which build wrote the file
 SameDescribed(a, b) == a.len = b.len /\ a.nblocks = b.nblocks /\ a.types = b.types /\ a.tidx = b.tidx /\ a.sizes = b.sizes
                        /\ a.strings = b.strings /\ a.blockHashes = b.blockHashes /\ a.whole = b.whole
+\* ev.refBroken: the reference build does not re-encode its own normal form of this configuration to itself (a defect of the
+\* pinned release, e.g. the FO76/Starfield lighting shader types it decrements on every write): "compatible with the
+\* reference" says nothing there, the configuration is outside the quantifier
 TwoBuildViol(ev) ==
+    IF ev.refBroken THEN {} ELSE
     V(ev.ref.rc = ev.cur.rc, "SameLoadResult")
     \cup (IF ev.ref.rc # 0 \/ ev.cur.rc # 0 THEN {}
           ELSE V(SameDescribed(ev.ref.out, ev.cur.out), "SameReEncoding")
